@@ -28,6 +28,7 @@ struct Pending {
 }
 
 pub struct Ctx {
+    pub marker: Option<String>,
     pub last_desc: String,
     pub prop: String,
     pub thorough: bool,
@@ -59,6 +60,7 @@ pub fn hash_of<T: Hash>(t: &T) -> u64 {
 impl Ctx {
     pub fn new(prop: &str, thorough: bool, seed: u64, driver: &str, known_classes: Vec<(String, String)>) -> Ctx {
         Ctx {
+            marker: None,
             last_desc: String::new(),
             prop: prop.to_string(),
             thorough,
@@ -94,6 +96,19 @@ impl Ctx {
 
     pub fn count_n(&mut self, key: &str, n: u64) {
         *self.hist.entry(key.to_string()).or_insert(0) += n;
+    }
+
+    /// announce a case that may kill the process outright (giant input: stack overflow, abort);
+    /// `check` reads the marker if the process dies
+    pub fn risky(&mut self, desc: &str) {
+        if let Some(p) = &self.marker {
+            let _ = std::fs::write(p, desc);
+        }
+    }
+    pub fn risky_done(&mut self) {
+        if let Some(p) = &self.marker {
+            let _ = std::fs::remove_file(p);
+        }
     }
 
     /// a correspondence case: the real result and the request for the model
